@@ -54,6 +54,12 @@ def call_forms(body_src, args_src, arity, atoms_only):
     forms = {"direct": f"f::{{{body_src}}};f({a})",
              "inline": f"{{{body_src}}}({a})",
              "variable": f"f::{{{body_src}}};g::f;g({a})"}
+    if arity >= 1:
+        # dynamic scope: a helper called from f assigns the name t, which f declares as a local and which is ALSO a global (gt is
+        # an alias of the global's value): the assignment reaches f's local - the innermost t on the call chain - and the global
+        # keeps its value (checked after the call: the form name ends in "+global")
+        forms["helper-assigns-callers-local+global"] = f"t::100;st::{{t::x}};f::{{[t];t::0;st({body_src});t}};f({a})"
+        forms["helper-two-deep-assigns-callers-local+global"] = f"t::100;st::{{t::x}};mid::{{st(x)}};f::{{[t];t::0;mid({body_src});t}};f({a})"
     if arity < 3:
         # nested function literals mention parameters of their OWN (here y and z, which the outer function does not have): the outer
         # function takes the parameters its own body mentions
@@ -79,6 +85,8 @@ def call_forms(body_src, args_src, arity, atoms_only):
         forms["recursive"] = f"r::{{:[y>0;.f(x;y-1);{body_src}]}};r({args_src[0]};2)"
         # recursion through .f with a declared local: every activation has its own t (the outermost still sees t = 2 afterwards)
         forms["recursive-local"] = f"r::{{[t];t::y;:[y>0;.f(x;y-1);0];:[t=2;{body_src};:inner]}};r({args_src[0]};2)"
+        # 150 activations at once (beyond any small bound on the number of live frames); the globals are still there afterwards
+        forms["recursive-150-deep+global"] = f"t::100;r::{{:[y>0;.f(x;y-1);{body_src}]}};r({args_src[0]};150)"
         forms["recursive-local-by-name"] = f"r::{{[t];t::y;:[y>0;r(x;y-1);0];:[t=2;{body_src};:inner]}};r({args_src[0]};2)"
     return forms
 
@@ -214,6 +222,15 @@ def run(tier, seed):
                 n_proj += 1
             else:
                 n_forms += 1
+            if name.endswith("+global") and canon.same(exp, got):
+                try:
+                    gt = canon.canon(k("t"))
+                except BaseException as e:   # noqa
+                    gt = {"t": "exc", "v": type(e).__name__}
+                if not canon.same(I(100), gt):
+                    vd.violation({"what": f"{src} gives the value of the substituted body, but afterwards the global t is {canon.show(gt) if gt['t'] != 'exc' else gt} "
+                                          f"instead of 100 [{name}]", "part": "substitution", "form": name.split(" ")[0], "src": src,
+                                  "numeric_only": False, "expected": "100"}, matcher=matcher)
             if not canon.same(exp, got):
                 numeric_only = got["t"] != "exc" and canon.same_mod(exp, got, numeric=True)
                 vd.violation({"what": f"{src} gives {canon.show(got) if got['t'] != 'exc' else exc}; the substituted body "
